@@ -27,6 +27,7 @@ from acnportal.acnsim import (
     PluginEvent,
     RecomputeEvent,
     Simulator,
+    UnplugEvent,
 )
 from acnportal.algorithms import (
     BaseAlgorithm,
@@ -129,6 +130,9 @@ def build_ev(s, shift=0):
 def build_events(spec, evs, shift=0, order=None):
     events = [PluginEvent(evs[s["id"]].arrival, evs[s["id"]]) for s in spec["sessions"]]
     events += [RecomputeEvent(t + shift) for t in spec.get("recomputes", [])]
+    # explicit departures ahead of the session's own departure (the simulator's own unplug event
+    # at ev.departure then finds the EV gone)
+    events += [UnplugEvent(u["t"] + shift, evs[u["session"]]) for u in spec.get("early_unplugs", [])]
     order = spec.get("event_order") if order is None else order
     if order:
         idx = [i for i in order if i < len(events)]
@@ -379,6 +383,9 @@ class Model:
             ev.append((s["departure"] + shift, PREC["Unplug"], "Unplug", s["id"]))
         for t in spec.get("recomputes", []):
             ev.append((t + shift, PREC["Recompute"], "Recompute", None))
+        self.early = {u["session"]: u["t"] for u in spec.get("early_unplugs", [])}
+        for sid, t in self.early.items():
+            ev.append((t + shift, PREC["Unplug"], "Unplug", sid))
         self.events = sorted(ev, key=lambda e: (e[0], e[1]))
         self.last = max(e[0] for e in self.events) if self.events else None
         self.event_times = {e[0] for e in self.events}
@@ -397,10 +404,15 @@ class Model:
         """Value of sim.iteration after run()."""
         return 0 if self.last is None else self.last + 1
 
+    def leaves(self, sid):
+        """Period (unshifted) in which the session is really unplugged."""
+        s = self.sessions[sid]
+        return min(s["departure"], self.early.get(sid, s["departure"]))
+
     def occupant(self, station, t):
         """Session connected to `station` during period t (events of period t applied)."""
         for s in self.spec["sessions"]:
-            if s["station"] == station and s["arrival"] + self.shift <= t < s["departure"] + self.shift:
+            if s["station"] == station and s["arrival"] + self.shift <= t < self.leaves(s["id"]) + self.shift:
                 return s["id"]
         return None
 
@@ -429,7 +441,7 @@ class Model:
         s = self.sessions[session_id]
         i = self.station_ids.index(s["station"])
         V = self.spec["stations"][i]["voltage"]
-        a, d = s["arrival"] + self.shift, min(s["departure"] + self.shift, upto)
+        a, d = s["arrival"] + self.shift, min(self.leaves(session_id) + self.shift, upto)
         if d <= a:
             return 0.0
         return math.fsum(float(rates[i, t]) * V / 1000.0 * (self.spec["period"] / 60.0) for t in range(a, min(d, rates.shape[1])))
@@ -498,6 +510,9 @@ def battery_specs(draw, models=("ideal", "cont", "step"), noise=True, fill=True)
     model = draw(st.sampled_from(models))
     cap = draw(st.sampled_from([1.0, 5.0, 20.0, 60.0] if fill else [200.0]))
     init = draw(st.sampled_from([0.0, 0.0, 0.5, 0.79, 0.9])) * cap
+    if fill and draw(st.integers(0, 9)) == 0:
+        # a hair below capacity (head-room of the order of the 1e-3 kWh "fully charged" tolerance)
+        init = cap - draw(st.sampled_from([1e-4, 5e-4, 9.9e-4, 2e-3]))
     b = {"model": model, "cap": cap, "init": round(init, 6), "maxp": draw(st.sampled_from([1.5, 3.3, 6.6, 11.0, 50.0]))}
     if model != "ideal":
         b["tsoc"] = draw(st.sampled_from([0.8, 0.8, 0.5, 0.0, 0.95]))
@@ -549,7 +564,7 @@ def constraint_lists(draw, stations, max_constraints=4, limits=(20.0, 50.0, 100.
 
 
 @st.composite
-def schedule_entries(draw, stations, max_len=4, empty_ok=True, vacant_ok=True, full=False):
+def schedule_entries(draw, stations, max_len=4, empty_ok=True, vacant_ok=True, full=False, jitter=True):
     if empty_ok and draw(st.integers(0, 7)) == 0:
         return {"rows": {}}
     ids = [s["id"] for s in stations]
@@ -560,7 +575,13 @@ def schedule_entries(draw, stations, max_len=4, empty_ok=True, vacant_ok=True, f
     for s in stations:
         if s["id"] in subset:
             lv = allowed_levels(s)
-            rows[s["id"]] = [0.0] * L if all_zero else [draw(st.sampled_from(lv + [lv[-1]])) for _ in range(L)]
+            vals = [0.0] * L if all_zero else [draw(st.sampled_from(lv + [lv[-1]])) for _ in range(L)]
+            if jitter and not all_zero and draw(st.integers(0, 5)) == 0:
+                # values up to 1e-3 A off an allowable value are accepted by every EVSE class and
+                # must be applied and recorded as submitted
+                k = draw(st.integers(0, L - 1))
+                vals[k] = max(0.0, vals[k] + draw(st.sampled_from([9e-4, -9e-4, 5e-4, -5e-4])))
+            rows[s["id"]] = vals
     order = list(draw(st.permutations(sorted(rows))))
     return {"rows": rows, "order": order, "vtype": draw(st.sampled_from(["float", "float", "int", "np", "nparray"]))}
 
